@@ -240,7 +240,24 @@ func cmdCheck(args []string) {
 			rec["solver_output"] = truncate(o.Model, 20000)
 			rec["hypotheses"] = truncate(E.TS.Show(o.Hyp), 20000)
 			rec["goal"] = truncate(E.TS.Show(o.Goal), 8000)
-			if ok, out := tryReplay(root, &cfg, id, o, rec); ok {
+			ok, out := tryReplay(root, &cfg, id, o, rec)
+			if !ok && cfg.Replay != nil && cfg.Replay[o.Fn] != nil && o.Fn != "" {
+				// the failing condition may sit behind a loop cut: look for an entry-state model with loops unrolled
+				for _, u := range unrolledFor(V, o.Fn) {
+					if u.Name != o.Name && !(strings.HasPrefix(o.Kind, "inv.")) {
+						continue
+					}
+					rec["unrolled_obligation"] = u.Name
+					if ok2, out2 := tryReplay(root, &cfg, id, u, rec); ok2 {
+						ok, out = true, out2
+						rec["model_note"] = "entry-state model found with loops unrolled (no invariants), obligation " + u.Name
+						break
+					} else if out2 != "" {
+						out = out2
+					}
+				}
+			}
+			if ok {
 				suffix = ""
 				rec["replayed"] = true
 				rec["replay_output"] = truncate(out, 8000)
@@ -337,7 +354,7 @@ func cmdCheck(args []string) {
 				p++
 			}
 		}
-		fnList = append(fnList, map[string]any{"function": r.Key, "obligations": n, "discharged": p, "houdini_invariants": r.Houdini, "error": r.Error})
+		fnList = append(fnList, map[string]any{"function": r.Key, "obligations": n, "discharged": p, "houdini_invariants": r.Houdini, "error": r.Error, "safety_obligations_not_generated": r.SafetySkipped})
 		houdini = append(houdini, r.Houdini...)
 	}
 	var tb []string
@@ -488,4 +505,15 @@ func tryReplay(root string, cfg *CheckConfig, id string, o *Obligation, rec map[
 		rec["model_note"] = "candidate counterexample from the query without its quantified hypotheses; believed only because it replays"
 	}
 	return runReplay(root, rs, id, o, rec)
+}
+
+var unrolledCache = map[string][]*Obligation{}
+
+func unrolledFor(V *Verifier, key string) []*Obligation {
+	if r, ok := unrolledCache[key]; ok {
+		return r
+	}
+	r := V.UnrolledCounterexamples(key, false, 4)
+	unrolledCache[key] = r
+	return r
 }
